@@ -159,6 +159,18 @@ def fam_C06(tier, seed):
         else:
             b.con(cls, res=r, distance=1, mode="exact", has_intervals=False, intervals=[])
         ps.append(b.done())
+    # SameWorkers / DistinctWorkers between the selections of two tasks, one or both optional: a task that is left
+    # out selects nobody
+    for cls, opts, (n1, k1), (n2, k2) in itertools.product(("SameWorkers", "DistinctWorkers"), [(False, True), (True, True), (True, False)],
+                                                           [(1, "exact"), (1, "min")], [(1, "exact"), (2, "max")]):
+        b = PB(3, tag="opt-same-distinct")
+        a = b.task("A", "F", dur=1, optional=opts[0])
+        c = b.task("B", "F", dur=2, optional=opts[1])
+        w1, w2 = b.worker("W1"), b.worker("W2")
+        r1 = b.require(a, select=b.select("S1", [w1, w2], n=n1, kind=k1))
+        r2 = b.require(c, select=b.select("S2", [w1, w2], n=n2, kind=k2))
+        b.con(cls, r1=r1, r2=r2)
+        ps.append(b.done())
     # single-task constraints whose bound is an expression over ANOTHER task (value: Union[int, z3.ArithRef]):
     # a constrained task that is left out binds nothing, whatever the expression evaluates to
     from problems import add, sub
